@@ -12,8 +12,12 @@ SECOND = ['VersionMismatch', 'AuthnFailed', 'InvalidAttrNameOrValue', 'InvalidNa
           'RequestUnsupported', 'RequestVersionDeprecated', 'RequestVersionTooHigh', 'RequestVersionTooLow',
           'ResourceNotRecognized', 'TooManyResponses', 'UnknownAttrProfile', 'UnknownPrincipal', 'UnsupportedBinding',
           'Responder']
-TOP = ['Success', 'Requester', 'Responder', 'VersionMismatch', 'urn:vp:unknown-status', None, 'NOSTATUS']
-VERSIONS = ['2.0', '1.0', '1.1', '2.1', '3.0', 'two', '', '2', '2.00', '02.0', ' 2.0', '2.0 ', '2e0', '+2.0', 'NaN', '2,0', '2.0.0']
+# values that are *nearly* the Success URN (prefix, suffix, infix, longer, other case, empty): none of them is Success
+NEAR = {'near:prefix': ST[:-1], 'near:shorter': ST + 'Succes', 'near:tail': 'status:Success', 'near:bare': 'Success',
+        'near:longer': ST + 'SuccessX', 'near:case': ST + 'success', 'near:empty': ''}
+TOP = ['Success', 'Requester', 'Responder', 'VersionMismatch', 'urn:vp:unknown-status', None, 'NOSTATUS'] + sorted(NEAR)
+# None = the Version attribute is absent
+VERSIONS = ['2.0', '1.0', '1.1', '2.1', '3.0', 'two', '', '2', '2.00', '02.0', ' 2.0', '2.0 ', '2e0', '+2.0', 'NaN', '2,0', '2.0.0', None]
 PAYLOAD = ['none', 'assertion-signed', 'both-signed']
 
 
@@ -32,6 +36,8 @@ def idp():
 def uri(x):
     if x is None:
         return None
+    if x in NEAR:
+        return NEAR[x]
     return x if ':' in x else ST + x
 
 
@@ -41,29 +47,64 @@ def cells(thorough):
         out.append(('resp', top, sec, msg, pay, '2.0'))
     for v, pay, top in itertools.product(VERSIONS[1:], PAYLOAD, ('Success', 'Responder')):
         out.append(('resp', top, None, False, pay, v))
+    # one response handler object consuming two messages in turn (response.authn_response + loads/verify, with and
+    # without clear() in between): first a genuine Success response, then a non-Success / non-2.0 one
+    for clear in (False, True):
+        for top, sec in (('Responder', 'AuthnFailed'), ('Requester', None), ('near:shorter', None), (None, None), ('NOSTATUS', None)):
+            for pay in PAYLOAD[1:]:
+                out.append(('reuse', clear, top, sec, pay, '2.0'))
+        for v in ('1.0', '2.1', None):
+            out.append(('reuse', clear, 'Success', None, 'assertion-signed', v))
     for kind, binding in (('AuthnRequest', 'redirect'), ('AuthnRequest', 'post'), ('LogoutRequest', 'soap'), ('AttributeQuery', 'soap')):
         for v in VERSIONS:
             out.append(('req', kind, binding, v))
     return out
 
 
+def document(top, sec, msg, pay, ver, irt='req1', subject='alice'):
+    r = dict(version=ver, status=uri(top) if top not in (None, 'NOSTATUS') else None, status2=uri(sec),
+             status_msg='something went wrong' if msg else None, has_status=(top != 'NOSTATUS'), irt=irt)
+    kw = dict(resp=r)
+    if pay == 'none':
+        kw['assertions'] = []
+    else:
+        kw['assertions'] = [dict(subject=subject, confirmations=[forge.confirmation(env.BASE, irt=irt)])]
+        kw['sign_ass'] = 'idpA'
+        if pay == 'both-signed':
+            kw['sign_resp'] = 'idpA'
+    return forge.build(env.BASE, **kw)
+
+
+def consume(handler, xml):
+    try:
+        handler.loads(xml, False, origxml=xml)
+        r = handler.verify()
+        if r is None:
+            return {'accept': False, 'exc': 'None'}
+        if r.assertion is None:
+            return {'accept': False, 'exc': 'NoAssertion'}
+        r.session_info()
+        return {'accept': True, 'exc': None, 'subject': r.name_id.text if r.name_id is not None else None}
+    except Exception as e:
+        return {'accept': False, 'exc': type(e).__name__}
+
+
 def evaluate(cell):
     env.Clock.set(env.BASE)
     if cell[0] == 'resp':
         _k, top, sec, msg, pay, ver = cell
-        r = dict(version=ver, status=uri(top) if top not in (None, 'NOSTATUS') else None, status2=uri(sec),
-                 status_msg='something went wrong' if msg else None, has_status=(top != 'NOSTATUS'))
-        kw = dict(resp=r)
-        if pay == 'none':
-            kw['assertions'] = []
-        elif pay == 'assertion-signed':
-            kw['sign_ass'] = 'idpA'
-        else:
-            kw['sign_ass'] = 'idpA'
-            kw['sign_resp'] = 'idpA'
-        xml = forge.build(env.BASE, **kw)
+        xml = document(top, sec, msg, pay, ver)
         obs = oracle.accept_response(sp(), xml)
         return {'accept': obs['accept'], 'exc': obs.get('exc')}
+    if cell[0] == 'reuse':
+        from saml2_tophat import response as s2response
+        _k, clear, top, sec, pay, ver = cell
+        h = s2response.authn_response(sp().config, [world.ACS_POST], outstanding_queries={'req1': '/home', 'req2': '/other'})
+        first = consume(h, document('Success', None, False, pay, '2.0'))
+        if clear:
+            h.clear()
+        second = consume(h, document(top, sec, False, pay, ver, irt='req2', subject='mallory'))
+        return {'accept': second['accept'], 'exc': second['exc'], 'first': first['accept']}
     _k, kind, binding, ver = cell
     server = idp()
     dest = {'AuthnRequest': world.SSO_A if binding == 'redirect' else world.SSO_A + '/post',
@@ -97,6 +138,13 @@ def judge(cell, r):
         if ver == '2.0' and not r['accept']:
             return 'valid-2.0-request-rejected:%s' % r['exc']
         return None
+    if cell[0] == 'reuse':
+        _k, clear, top, sec, pay, ver = cell
+        if not r['first']:
+            return 'reused-handler:genuine-first-response-rejected'
+        if r['accept']:
+            return 'reused-handler:second-response-with-%s-accepted' % ('version-%r' % ver if ver != '2.0' else 'non-success-status')
+        return None
     _k, top, sec, msg, pay, ver = cell
     if ver != '2.0':
         return 'response-with-version-%r-accepted' % ver if r['accept'] else None
@@ -104,7 +152,7 @@ def judge(cell, r):
         return None
     if r['accept']:
         return 'identity-from-non-success-response'
-    if top in (None, 'NOSTATUS'):
+    if top in (None, 'NOSTATUS', 'near:empty'):      # refused by the structural validation that comes first
         return None
     exc = (r['exc'] or '').lower()
     specifics = set(specific_class(s) for s in SECOND)
@@ -135,7 +183,9 @@ def run(ctx):
             nontriv.add(c)
         y = judge(c, r)
         if y:
-            if c[0] == 'resp':
+            if c[0] == 'reuse':
+                key = {'kind': y, 'clear_between': c[1], 'top': c[2], 'second': c[3], 'payload': c[4], 'version': c[5]}
+            elif c[0] == 'resp':
                 key = {'kind': y.split(':')[0], 'top': c[1], 'second': c[2], 'message': c[3], 'payload': c[4], 'version': c[5]}
             else:
                 key = {'kind': y.split(':')[0], 'request': c[1], 'binding': c[2], 'version': c[3]}
@@ -146,7 +196,7 @@ def run(ctx):
         'level': 'exploration',
         'coverage': {
             'evaluations': len(cs), 'distinct_nontrivial': len(nontriv), 'exhaustive': True, 'accepted': acc,
-            'rule': 'complete product: top-level status (Success, Requester, Responder, VersionMismatch, unknown, StatusCode absent, Status absent) x second-level (absent, each of the 21 standard codes, unknown) x StatusMessage x payload (none / signed assertion / signed response+assertion); Version {2.0,1.0,1.1,2.1,3.0,two,empty} on responses and on AuthnRequest (Redirect, POST) / LogoutRequest / AttributeQuery (SOAP); non-trivial = non-Success status or non-2.0 version or a request',
+            'rule': 'complete product: top-level status (Success, Requester, Responder, VersionMismatch, unknown, StatusCode absent, Status absent) x second-level (absent, each of the 21 standard codes, unknown) x StatusMessage x payload (none / signed assertion / signed response+assertion), top-level values also with 7 near-misses of the Success URN (prefix, shorter, suffix, bare word, longer, other case, empty); one response handler consuming a genuine response and then a non-Success / non-2.0 one (with and without clear()); Version {2.0,1.0,1.1,2.1,3.0,two,empty,near-2.0 spellings,attribute absent} on responses and on AuthnRequest (Redirect, POST) / LogoutRequest / AttributeQuery (SOAP); non-trivial = non-Success status or non-2.0 version or a request',
             'samples': [{'cell': list(cs[i]), 'observed': res[i]} for i in (1, len(cs) // 2, len(cs) - 1)],
             'distinct_outcomes': len(hist), 'outcome_histogram': hist,
         },
@@ -157,7 +207,9 @@ def run(ctx):
 
 def replay(ctx, w):
     TMP[0] = ctx.tmp
-    if 'request' in w:
+    if 'clear_between' in w:
+        c = ('reuse', w['clear_between'], w['top'], w['second'], w['payload'], w['version'])
+    elif 'request' in w:
         c = ('req', w['request'], w['binding'], w['version'])
     else:
         c = ('resp', w['top'], w['second'], w['message'], w['payload'], w['version'])
